@@ -65,8 +65,12 @@ def check_eval(ctx, e, rng, tmp):
 
 def check_effect(ctx, e, rng):
     rows = e["rows"]
-    sid = np.array([r["s"] for r in rows], dtype=int)
-    tid = np.array([list(r["t"]) for r in rows], dtype=int)
+    # ids are identities, not a dense range: a plate or a subset carries whatever ids its conditions have in the study (gaps included)
+    gs, gt = [(1, 0), (2, 1), (1, 5)][int(rng.integers(3))], [(1, 0), (3, 2), (2, 0)][int(rng.integers(3))]
+    fs = lambda x: gs[0] * x + gs[1]
+    ft = lambda x: -1 if x == -1 else gt[0] * x + gt[1]
+    sid = np.array([fs(r["s"]) for r in rows], dtype=int)
+    tid = np.array([[ft(x) for x in r["t"]] for r in rows], dtype=int)
     obs = rng.uniform(0.05, 1.2, size=len(rows))
     for i in range(len(rows)):
         if rng.random() < 0.2:
@@ -75,7 +79,7 @@ def check_effect(ctx, e, rng):
     st, m = outcome(create_single_treatment_effect_map, sid, tid, obs)
     if st != "ok":
         return "effect map raised " + m
-    want = {(x["s"], x["t"]): ev(x["v"], env) for x in e["map"]}
+    want = {(fs(x["s"]), ft(x["t"])): ev(x["v"], env) for x in e["map"]}
     got = {(int(a), int(b)): float(v) for (a, b), v in m.items()}
     if set(got) != set(want):
         return "effect map keys %s, definition %s" % (sorted(got), sorted(want))
@@ -107,7 +111,7 @@ def check_effect(ctx, e, rng):
                 return "synergy returns %d rows, definition %d" % (len(syn), len(e["synergy"]))
             for i, w in enumerate(e["synergy"]):
                 wv, mag = ev(w["v"], env)
-                if int(s_ids[i]) != w["s"] or [int(x) for x in t_ids[i]] != list(w["t"]) or not close(float(syn[i]), wv, mag, 1e-9):
+                if int(s_ids[i]) != fs(w["s"]) or [int(x) for x in t_ids[i]] != [ft(x) for x in w["t"]] or not close(float(syn[i]), wv, mag, 1e-9):
                     return "synergy row %d = (%s, %s, %.17g), definition (%s, %s, %.17g)" % (i, s_ids[i], list(t_ids[i]), float(syn[i]), w["s"], list(w["t"]), wv)
     return None
 
@@ -152,6 +156,17 @@ def check_corr_and_mse(ctx, rng):
                     return "combinatoric space is not encoded with the screen's own treatment ids"
         if set(int(x) for x in sp.sample_ids) != {int(sid)}:
             return "combinatoric space is not encoded with the screen's own sample id"
+    # an evaluation of study size (thousands of held-out experiments): the metrics are still their definitions
+    for E_ in (8197, 20000):
+        T_ = 4
+        Pb, Ob = rng.normal(size=(E_, T_)), rng.normal(size=E_)
+        st, me = outcome(ModelEvaluation, predictions=Pb, observations=Ob, chain_ids=np.array([0, 0, 1, 1]), sample_names=np.array(["s%d" % (i % 3) for i in range(E_)], dtype=str))
+        if st != "ok":
+            return "ModelEvaluation of %d experiments raised %s" % (E_, me)
+        err2 = (Pb - Ob[:, None]) ** 2          # Metrics.tla: Mse = mean over every (experiment, sample); MseVar = variance of the per-experiment means
+        for name_, got_, want_ in (("mse", outcome(me.mse), float(err2.mean())), ("mse_variance", outcome(me.mse_variance), float(err2.mean(axis=1).var()))):
+            if got_[0] != "ok" or abs(float(got_[1]) - want_) > 1e-9 * max(1.0, abs(want_)):
+                return "%s of an evaluation with %d experiments = %s, definition %.17g" % (name_, E_, got_[1], want_)
     # a study-size mapping (more than ten thousand unordered combinations): still every combination, each once
     big = 150
     bmap = (np.array(["ctl"] + ["t%03d" % i for i in range(big - 1)], dtype=str), np.array([0.0] + [1.0 + (i % 3) for i in range(big - 1)]),
